@@ -197,7 +197,7 @@ func (av arrayValue) PropertyValue(iv Value) Value {
 func (mv mapValue) Contains(iv Value) bool {
 	mr := reflect.ValueOf(mv.value)
 	ir := reflect.ValueOf(iv.Interface())
-	if ir.IsValid() && mr.Type().Key() == ir.Type() {
+	if ir.IsValid() && mr.Type().Key() == ir.Type() && ir.Comparable() {
 		return mr.MapIndex(ir).IsValid()
 	}
 	return false
@@ -207,7 +207,7 @@ func (mv mapValue) IndexValue(iv Value) Value {
 	mr := reflect.ValueOf(mv.value)
 	ir := reflect.ValueOf(iv.Interface())
 	kt := mr.Type().Key()
-	if ir.IsValid() && ir.Type().ConvertibleTo(kt) && ir.Type().Comparable() {
+	if ir.IsValid() && ir.Type().ConvertibleTo(kt) && ir.Comparable() {
 		er := mr.MapIndex(ir.Convert(kt))
 		if er.IsValid() {
 			return ValueOf(er.Interface())
@@ -223,7 +223,7 @@ func (mv mapValue) PropertyValue(iv Value) Value {
 		return nilValue
 	}
 	var er reflect.Value
-	if ir.Type().AssignableTo(mr.Type().Key()) {
+	if ir.Type().AssignableTo(mr.Type().Key()) && ir.Comparable() {
 		er = mr.MapIndex(ir)
 	}
 	switch {
